@@ -168,6 +168,45 @@ class SquidsHooks(GslHooks):
             n = b.off - a.off
             vals = [a.region.cell(a.off + k).value for k in range(n)]
             return 1 if self.order.sorted(vals) else 0
+        if base in ('std::adjacent_find', 'std::is_sorted_until') and len(args) in (2, 3):
+            # first position i with pred(x[i], x[i+1]) (adjacent_find) resp. first i+1 with x[i+1] < x[i] (is_sorted_until);
+            # the predicate is one of the standard comparison function objects, decided by the order oracle
+            a, b = it.eval(args[0]), it.eval(args[1])
+            if self.order is None:
+                raise Unsupported('%s without an order oracle at %s' % (base, it.loc(node)))
+            n = b.off - a.off
+            vals = [a.region.cell(a.off + k).value for k in range(n)]
+            if len(args) == 3:
+                pt = args[2].get('t') or ''
+                op = None
+                for nm, o in (('std::greater_equal<', '>='), ('std::less_equal<', '<='), ('std::greater<', '>'), ('std::less<', '<'),
+                              ('std::equal_to<', '=='), ('std::not_equal_to<', '!=')):
+                    if nm in pt:
+                        op = o
+                        break
+                if op is None:
+                    raise Unsupported('%s with predicate of type %s at %s' % (base, pt, it.loc(node)))
+            else:
+                op = '==' if base == 'std::adjacent_find' else None
+            for i in range(n - 1):
+                if base == 'std::adjacent_find':
+                    r = self.order.compare(op, vals[i], vals[i + 1])
+                else:
+                    r = self.order.compare('<', vals[i + 1], vals[i]) if op is None else self.order.compare(op, vals[i + 1], vals[i])
+                if r is None:
+                    raise Unsupported('%s over non-symbol values at %s' % (base, it.loc(node)))
+                if r:
+                    return Ptr(a.region, a.off + (i if base == 'std::adjacent_find' else i + 1))
+            return Ptr(a.region, a.off + n)
+        if name.split('<')[0] in ('std::greater_equal', 'std::less_equal', 'std::greater', 'std::less', 'std::equal_to', 'std::not_equal_to') or \
+                any(name.startswith(x) for x in ('std::greater_equal<', 'std::less_equal<', 'std::greater<', 'std::less<')):
+            if name.endswith('operator()') and len(args) == 2 and self.order is not None:
+                op = {'greater_equal': '>=', 'less_equal': '<=', 'greater': '>', 'less': '<', 'equal_to': '==', 'not_equal_to': '!='}[name.split('::')[1].split('<')[0]]
+                r = self.order.compare(op, self._val(it, args[0]), self._val(it, args[1]))
+                if r is None:
+                    raise Unsupported('comparison object applied to non-symbol values at %s' % it.loc(node))
+                return 1 if r else 0
+            return Obj(name.split('::')[1].split('<')[0])  # constructing the (stateless) function object
         if base in ('std::lower_bound', 'std::upper_bound'):
             a, b, v = it.eval(args[0]), it.eval(args[1]), self._val(it, args[2])
             if isinstance(v, Cell):
